@@ -445,6 +445,9 @@ func (t *tctx) stmt(s ast.Stmt, ind string) []string {
 		}
 		t.bad(s, "branch")
 	case *ast.ReturnStmt:
+		if strings.HasPrefix(t.ret, "var:") && len(x.Results) == 0 {
+			return []string{ind + "return " + strings.TrimPrefix(t.ret, "var:")}
+		}
 		switch t.ret {
 		case "value":
 			if len(x.Results) != 1 {
@@ -479,6 +482,11 @@ func (t *tctx) slice(list []ast.Stmt) []ast.Stmt {
 	var out []ast.Stmt
 	for _, s := range list {
 		if _, ok := t.hdrOp(s); ok {
+			out = append(out, s)
+			continue
+		}
+		if r, ok := s.(*ast.ReturnStmt); ok && len(r.Results) == 0 && strings.HasPrefix(t.ret, "var:") {
+			// an early exit decides which of the later edits happen: it belongs to the slice
 			out = append(out, s)
 			continue
 		}
@@ -917,13 +925,32 @@ func genFuncs() string {
 		}
 		fmt.Fprintf(&sb, "/-- %s sessionResponseWriter.WriteHeader: (Path, Secure, HttpOnly) of the session cookie; Name = configured name, Value = session ID, Expires = now + configured lifetime (checked syntactically by goextract) -/\ndef sessions_cookieAttrs (disableSSLForTest : Bool) : Bytes × Bool × Bool := (%s, %s, %s)\n\n", rel, t.expr(pathE), t.expr(secE), t.expr(httpE))
 		// the header edits of WriteHeader as a function (slice: header operations and the ifs guarding them)
-		ts := &tctx{pkg: "sessions", env: collectConsts(f), where: rel + ":sessionResponseWriter.WriteHeader (header slice)",
+		ts := &tctx{pkg: "sessions", env: collectConsts(f), where: rel + ":sessionResponseWriter.WriteHeader (header slice)", ret: "var:header",
 			hdrVars: map[string]string{"header": "header"},
-			subst:   map[string]string{"w.sessionID == \"\"": "noSession", "sessionCookie.String()": "sessionCookie", "len(cookiesToAdd)": "parsedCookies"}}
+			subst:   map[string]string{"w.sessionID == \"\"": "noSession", "sessionCookie.String()": "sessionCookie", "len(cookiesToAdd)": "parsedCookies", "w.wroteHeader": "wroteHeader"}}
+		knownInts["http.StatusSwitchingProtocols"] = 101
 		sl := ts.slice(fd.Body.List)
+		if len(sl) > 0 {
+			if _, ok := sl[len(sl)-1].(*ast.ReturnStmt); ok {
+				sl = sl[:len(sl)-1]
+			}
+		}
 		hb := append([]string{"  let mut header := header0"}, ts.stmts(sl, "  ")...)
 		hb = append(hb, "  return header")
-		emitDef(&sb, "sessions_writeHeaderEdits (noSession : Bool) (sessionCookie : Bytes) (parsedCookies : Nat) (header0 : Hdr) : Hdr", hb, rel+" sessionResponseWriter.WriteHeader: edits of the response header (slice)")
+		emitDef(&sb, "sessions_writeHeaderEdits (wroteHeader : Bool) (statusCode : Int) (noSession : Bool) (sessionCookie : Bytes) (parsedCookies : Nat) (header0 : Hdr) : Hdr", hb, rel+" sessionResponseWriter.WriteHeader: edits of the response header, with the early exits that decide them (slice)")
+		// the header is marked as written exactly when the call is not an interim one: `w.wroteHeader = true` follows the interim exit
+		{
+			idxInterim, idxMark := -1, -1
+			for i, st := range fd.Body.List {
+				if is, ok := st.(*ast.IfStmt); ok && strings.Contains(src(is.Cond), "statusCode >= 100") {
+					idxInterim = i
+				}
+				if src(st) == "w.wroteHeader = true" {
+					idxMark = i
+				}
+			}
+			fmt.Fprintf(&sb, "/-- %s sessionResponseWriter.WriteHeader: `w.wroteHeader = true` is a top-level statement placed after the interim (1xx) exit -/\ndef sessions_marksWrittenAfterInterimExit : Bool := %v\n\n", rel, idxInterim >= 0 && idxMark > idxInterim)
+		}
 		// the writer deletes every Set-Cookie and adds only the session cookie
 		body := src(fd.Body)
 		for _, need := range []string{"header.Del(\"Set-Cookie\")", "header.Add(\"Set-Cookie\", sessionCookie.String())", "if w.sessionID == \"\" {"} {
